@@ -369,3 +369,31 @@ M('C08', 'signer-roles-swapped', STM + 'proof_system/concatenation/signer.rs',
             ) {""", ['is_lottery_won'], 'signer and verifier disagree on roles')
 M('C08', 'draw-ignores-index', STM + 'signature_scheme/bls_multi_signature/signature.rs',
   '            .chain_update(index.to_le_bytes())\n', '            .chain_update({ let _ = index; 0u64.to_le_bytes() })\n', ['dense_mapping:inputs'], 'same draw for every index')
+
+# ---------------------------------------------------------------- C11
+MSG = COMMON + 'messages/'
+M('C11', 'roots-not-compared', MSG + 'cardano_transactions_proof.rs',
+  """            } else if merkle_root != tx_merkle_root {
+                return Err(VerifyCardanoTransactionsProofsError::NonMatchingMerkleRoot);
+            }""", """            }""", ['same-root'], 'proofs of different roots accepted')
+M('C11', 'set-proof-unverified', MSG + 'cardano_transactions_proof.rs',
+  """                    source: e,
+                }
+            })?;
+
+            let tx_merkle_root""", """                    source: e,
+                }
+            }).ok();
+
+            let tx_merkle_root""", ['CardanoTransactionsSetProof::verify'], 'invalid set proof accepted')
+M('C11', 'v2-reports-unchecked-items', MSG + 'proof_v2/cardano_transactions_proof.rs',
+  '            latest_block_number: self.latest_block_number,\n            security_parameter: self.security_parameter,',
+  '            latest_block_number: self.latest_block_number,\n            security_parameter: Default::default(),', ['result-fields'], 'offset not taken from the message')
+M('C11', 'leaf-id-drops-delimiter', COMMON + 'entities/cardano_block_transaction_mktree_node.rs',
+  'format!("Block/{block_hash}/{block_number}/{slot_number}")', 'format!("Block/{block_hash}/{block_number}{slot_number}")', ['templates'], 'ambiguous leaf text')
+M('C11', 'leaf-id-drops-field', COMMON + 'entities/cardano_block_transaction_mktree_node.rs',
+  'format!("Tx/{transaction_hash}/{block_hash}/{block_number}/{slot_number}",)', 'format!("Tx/{transaction_hash}/{block_hash}/{block_number}",)', ['slot_number'], 'field not committed')
+M('C11', 'message-root-from-certificate', 'mithril-client/src/message.rs',
+  """                ProtocolMessagePartKey::CardanoBlocksTransactionsMerkleRoot,
+                verified_transactions.certified_merkle_root().to_string(),""", """                ProtocolMessagePartKey::CardanoBlocksTransactionsMerkleRoot,
+                transactions_proofs_certificate.protocol_message.get_message_part(&ProtocolMessagePartKey::CardanoBlocksTransactionsMerkleRoot).cloned().unwrap_or_default(),""", ['message:'], 'message recomputed from itself')
